@@ -490,11 +490,11 @@ pub fn run(args: &Args) -> i32 {
     let lane = args.extra.get("lane").cloned().unwrap_or_default();
     let div = if lane.is_empty() || lane == "fastdbg" { 1 } else { 3 };
     rep.set("lane", json!(if lane.is_empty() { "fastdbg" } else { lane.as_str() }));
-    let n_small = args.by_tier(320u64, 16_000) / div;
-    let n_medium = args.by_tier(80u64, 4_000) / div;
+    let n_small = args.by_tier(800u64, 16_000) / div;
+    let n_medium = args.by_tier(200u64, 4_000) / div;
     let n_thresh = args.by_tier(4u64, 120) / div;
     let n_large = args.by_tier(2u64, 80) / div;
-    let n_exh = args.by_tier(6u64, 200) / div;
+    let n_exh = args.by_tier(12u64, 200) / div;
     let variants = args.by_tier(6usize, 8);
     let b = budget.slice(0.35);
     run_shards(&mut rep, jobs, jobs, |shard, rep| {
@@ -520,7 +520,7 @@ pub fn run(args: &Args) -> i32 {
             case += jobs as u64;
         }
     });
-    let n_seq = args.by_tier(240u64, 12_000) / div;
+    let n_seq = args.by_tier(600u64, 12_000) / div;
     let b = budget.slice(0.2);
     run_shards(&mut rep, jobs, jobs, |shard, rep| {
         let mut case = shard as u64;
